@@ -17,6 +17,12 @@ def gen_texts(chk):
         texts.append((t, 'wellformed'))
     for _ in range(12000 if thorough else 2500):
         texts.append((A.malformed(rng, sp), 'malformed'))
+    # names of every length with a multi-byte letter at every byte offset (error messages, tables and slices indexed by bytes)
+    for ch in ('\u00e9', '\u4e2d', '\U0001d4b3', '\u0663'):
+        for pos in range(0, 40):
+            name = 'a' * pos + ch + 'b' * rng.below(30)
+            texts.append((name + rng.choice([' r1, 2\nexit', '', ' r1', '\n', ' [r1+' + ch + '], 1']), 'long-names'))
+            texts.append(('mov' * (pos // 3) + 'm'[:pos % 3] + ch + 'x r1, 2\nexit', 'long-names'))
     # long inputs: bounded time (described to Coq as repetitions, not spelled out)
     def rep(prefix, unit, n, suffix=''):
         texts.append((prefix + unit * n + suffix, 'long', '(%s ++ rep %d %s ++ %s)%%list' % (A.codepoints(prefix), n, A.codepoints(unit), A.codepoints(suffix))))
